@@ -247,16 +247,21 @@ func TestMC_C10(t *testing.T) {
 	type flavour struct {
 		net     int
 		genesis bool
+		inWin   bool // reference instant inside (15:30) or outside (21:30) the 13..19 window
 		radices [5]int
 	}
 	flavours := verifmc.Pick(c,
-		[]flavour{{0, true, [5]int{3, 3, 2, 2, 2}}, {0, false, [5]int{2, 2, 2, 2, 2}}, {1, true, [5]int{2, 2, 1, 2, 1}}, {2, true, [5]int{2, 2, 1, 2, 1}}},
-		[]flavour{{0, true, [5]int{4, 4, 4, 4, 4}}, {0, false, [5]int{3, 3, 3, 3, 3}}, {1, true, [5]int{2, 2, 2, 2, 2}}, {2, true, [5]int{2, 2, 2, 2, 2}}})
+		[]flavour{
+			{0, true, true, [5]int{3, 3, 2, 2, 2}}, {0, true, false, [5]int{3, 2, 1, 1, 1}}, {0, false, true, [5]int{2, 2, 2, 2, 2}},
+			{1, true, true, [5]int{2, 2, 1, 2, 1}}, {2, true, true, [5]int{2, 2, 1, 2, 1}}},
+		[]flavour{
+			{0, true, true, [5]int{4, 4, 4, 4, 4}}, {0, true, false, [5]int{4, 4, 4, 4, 4}}, {0, false, true, [5]int{3, 3, 3, 3, 3}}, {0, false, false, [5]int{3, 3, 3, 3, 3}},
+			{1, true, true, [5]int{2, 2, 2, 2, 2}}, {1, true, false, [5]int{2, 2, 2, 2, 2}}, {2, true, true, [5]int{2, 2, 2, 2, 2}}, {2, true, false, [5]int{2, 2, 2, 2, 2}}})
 	var fl []string
 	for _, f := range flavours {
-		fl = append(fl, fmt.Sprintf("%s/genesis-base=%v: counts below %v", nets[f.net].name, f.genesis, f.radices))
+		fl = append(fl, fmt.Sprintf("%s/genesis-base=%v/reference-in-window=%v: counts below %v", nets[f.net].name, f.genesis, f.inWin, f.radices))
 	}
-	c.SetRule(fmt.Sprintf("full product per flavour (network {non-mainnet id, mainnet id after / before the signer-set fork}, base nodes genesis-marked or accepted long ago) of: base nodes n in 7..50 x additional accepted nodes per maturity class {a: <=30 s, m: 30 s..12 h, o: >12 h} x removed base nodes r x pledged-then-cancelled nodes c (count ranges {a,m,o,r,c} per flavour: %v) x pledging node {none, pledged 1 h ago, 13 h ago} x reference instant {inside the 13..19 window, outside}, accepted total <= 50; each configuration is queried at 11 timestamps (reference instant +-1 ns, +30 s, +12 h, +1 day, window start -1/0/+1 ns, window end last ns / first ns after) on an ordinary chain (round 1) and, while the pledging node is pledging, on its chain's round 0; plus one real 7-node fixture node with a really finalized pledge; distinct by (configuration, chain kind)", fl))
+	c.SetRule(fmt.Sprintf("full product per flavour (network {non-mainnet id, mainnet id after / before the signer-set fork}, base nodes genesis-marked or accepted long ago) of: base nodes n in 7..50 x additional accepted nodes per maturity class {a: <=30 s, m: 30 s..12 h, o: >12 h} x removed base nodes r x pledged-then-cancelled nodes c (count ranges {a,m,o,r,c} per flavour: %v) x pledging node {none, pledged 1 h ago, 13 h ago}, reference instant 15:30 (inside the 13..19 window) or 21:30 (outside) of day 200, accepted total <= 50; each configuration is queried at 11 timestamps (reference instant +-1 ns, +30 s, +12 h, +1 day, window start -1/0/+1 ns, window end last ns / first ns after) on an ordinary chain (round 1) and, while the pledging node is pledging, on its chain's round 0; plus one real 7-node fixture node with a really finalized pledge; distinct by (configuration, chain kind)", fl))
 	c.Assume("membership of the synthetic configurations is installed by the real LoadConsensusNodes over a stub storage.Store returning synthetic records (over-approximates reachable histories)",
 		"effective membership (used for the below-minimum clause and for naming the failing class only) = accepted nodes that are genesis or accepted more than 30 s before the timestamp, minus the node the real removingOrSlashingNodeAt predicts when the real fork gate is on",
 		"the intersection inequality itself is evaluated on the values returned by the real ConsensusThreshold and ConsensusKeys only")
@@ -266,8 +271,8 @@ func TestMC_C10(t *testing.T) {
 	for _, f := range flavours {
 		for n := 7; n <= 50; n++ {
 			rd := f.radices
-			verifmc.Product([]int{rd[0], rd[1], rd[2], rd[3], rd[4], 3, 2}, func(d []int) bool {
-				cf := c10Config{net: f.net, genesis: f.genesis, n: n, a: d[0], m: d[1], o: d[2], r: d[3], cn: d[4], p: d[5], inWin: d[6] == 1}
+			verifmc.Product([]int{rd[0], rd[1], rd[2], rd[3], rd[4], 3}, func(d []int) bool {
+				cf := c10Config{net: f.net, genesis: f.genesis, n: n, a: d[0], m: d[1], o: d[2], r: d[3], cn: d[4], p: d[5], inWin: f.inWin}
 				if cf.n-cf.r+cf.a+cf.m+cf.o > config.KernelMaximumNodesCount {
 					return true
 				}
